@@ -29,11 +29,25 @@ def load_known() -> List[dict]:
 
 
 def match_known(pid: str, f: Failure, known: List[dict]):
+    """a finding entry matches one failing obligation: same property, same obligation (exact `obligation` or
+    regex `obligation_re`), and — when given — the exit text (`exit`), the failure tag (`tag`, set by the
+    unit from the schema/model, e.g. which kind of type this is) and a fragment of the verifier's message"""
+    import re
     for k in known:
-        if k.get('property') != pid or k.get('obligation') != f.obligation:
+        if k.get('property') != pid:
+            continue
+        if 'obligation' in k and k['obligation'] != f.obligation:
+            continue
+        if 'obligation_re' in k and not re.fullmatch(k['obligation_re'], f.obligation):
+            continue
+        if 'obligation' not in k and 'obligation_re' not in k:
             continue
         want = norm(k.get('exit', ''))
         if want and want not in f.exit_text():
+            continue
+        if k.get('tag') and k['tag'] != f.sub:
+            continue
+        if k.get('message_contains') and k['message_contains'] not in f.message:
             continue
         return k
     return None
